@@ -1,0 +1,6 @@
+//go:build !verif
+
+package repl
+
+// No-op twin of verif_crash.go.
+func verifCrashPoint(string) {}
